@@ -52,26 +52,31 @@ struct TAHist
 		res["rules"] = rules;
 		return res;
 	}
+	// "vsel": the views a history asks for (all of them when empty).  A view that is always asked can mask a defect
+	// (AreTransitionsEmpty un-shares the rule storage as a side effect), so histories pick subsets.
+	std::set<std::string> vsel;
+	bool want(const char* k) const { return vsel.empty() || vsel.count(k) > 0; }
 	json views(const TA& a, const json& universe, const std::vector<size_t>& states) const
 	{
-		json v;
+		json v = json::object();
 		json acc = json::array();
+		if (want("accept"))
 		{
 			TA::AcceptTrans at = a.GetAcceptTrans();
 			for (auto it = at.begin(); it != at.end(); ++it) { acc.push_back(ruleJson(*it)); }
 		}
-		v["accept"] = acc;
+		if (want("accept")) { v["accept"] = acc; }
 		json down = json::array();
-		for (size_t q : states)
+		if (want("down")) for (size_t q : states)
 		{
 			json rs = json::array();
 			TA::DownAccessor da = a[StIn(q)];    // keep the accessor alive while iterating
 			for (auto it = da.begin(); it != da.end(); ++it) { rs.push_back(ruleJson(*it)); }
 			down.push_back(json::array({q, rs, da.empty()}));
 		}
-		v["down"] = down;
+		if (want("down")) { v["down"] = down; }
 		json cont = json::array();
-		for (const json& r : universe)
+		if (want("contains")) for (const json& r : universe)
 		{
 			TA::StateTuple kids;
 			for (const json& k : r.at(1)) { kids.push_back(StIn(k.get<size_t>())); }
@@ -81,16 +86,22 @@ struct TAHist
 			bool c2 = a.ContainsTransition(TA::Transition(StIn(r.at(2).get<size_t>()), s, kids));
 			cont.push_back(json::array({r, c1, c2}));
 		}
-		v["contains"] = cont;
-		auto used = a.GetUsedStates();
-		std::vector<size_t> u;
-		for (size_t q : used) { u.push_back(StOut(q)); }
-		std::sort(u.begin(), u.end());
-		v["used"] = u;
-		v["empty"] = const_cast<TA&>(a).AreTransitionsEmpty();
-		json isfin = json::array();
-		for (size_t q : states) { isfin.push_back(json::array({q, a.IsStateFinal(StIn(q))})); }
-		v["isfinal"] = isfin;
+		if (want("contains")) { v["contains"] = cont; }
+		if (want("used"))
+		{
+			auto used = a.GetUsedStates();
+			std::vector<size_t> u;
+			for (size_t q : used) { u.push_back(StOut(q)); }
+			std::sort(u.begin(), u.end());
+			v["used"] = u;
+		}
+		if (want("empty")) { v["empty"] = const_cast<TA&>(a).AreTransitionsEmpty(); }
+		if (want("isfinal"))
+		{
+			json isfin = json::array();
+			for (size_t q : states) { isfin.push_back(json::array({q, a.IsStateFinal(StIn(q))})); }
+			v["isfinal"] = isfin;
+		}
 		return v;
 	}
 };
@@ -124,6 +135,7 @@ json runTAHist(const json& c)
 	TAHist H;
 	H.raw = (c.value("sym", "names") == "raw");
 	bool wantViews = c.value("views", false);
+	if (c.contains("vsel")) { for (const json& k : c["vsel"]) { H.vsel.insert(k.get<std::string>()); } }
 	json universe = c.value("universe", json::array());
 	std::vector<size_t> vstates = c.value("vstates", std::vector<size_t>());
 	json out = json::array();
